@@ -1,6 +1,6 @@
 ---------------------------- MODULE Resolver_MC ----------------------------
 (* A reference resolver (the DESIGN the properties C15/C16 ask of plan.py), model checked over
-   every world of Resolver_Worlds!Family under both strategies.
+   every world of Resolver_Worlds!Family (main, blocker and versions parts) under both strategies.
 
    It keeps the plan (ops, in the vocabulary of the real planner: add / replace), the open
    requirements (pend) and, for every requirement it closed, a note of which package it was
@@ -54,15 +54,15 @@ Init == /\ ci \in DOMAIN FamilySeq
 
 \* q is tried before p
 Before(q, p) ==
-  IF kind = "upgrade" THEN q.ver > p.ver \/ (q.ver = p.ver /\ q.repo = "vdb" /\ p.repo = "src")
-  ELSE (q.repo = "vdb" /\ p.repo = "src") \/ (q.repo = p.repo /\ q.ver > p.ver)
+  IF kind = "upgrade" THEN VLess(p.ver, q.ver) \/ (q.ver = p.ver /\ q.repo = "vdb" /\ p.repo # "vdb")
+  ELSE (q.repo = "vdb" /\ p.repo # "vdb") \/ ((q.repo = "vdb") = (p.repo = "vdb") /\ VLess(p.ver, q.ver))
 
 Mates(p) == {q \in fin : q # p /\ SameSlot(q, p)}
-MayReplace(q, p) == /\ q.repo = "vdb" /\ p.repo = "src"
+MayReplace(q, p) == /\ q.repo = "vdb" /\ p.repo # "vdb"
                     /\ (GuardReplace => \A n \in sel : n[2] = q.id => Matches(n[1], p))
-MergedNow == {p \in fin : p.repo = "src"}
+MergedNow == {p \in fin : p.repo # "vdb"}
 Blocked(p) == \/ \E m \in MergedNow : \E b \in BlockAtoms(m) : m # p /\ Matches(b, p)
-              \/ p.repo = "src" /\ \E b \in BlockAtoms(p) : \E f \in fin : f # p /\ Matches(b, f)
+              \/ p.repo # "vdb" /\ \E b \in BlockAtoms(p) : \E f \in fin : f # p /\ Matches(b, f)
                                                              /\ (SameSlot(f, p) => ~MayReplace(f, p))
 CanAdd(p) == /\ p \notin inplan
              /\ (p.repo = "vdb" => p \in fin)          \* a replaced installed package is gone
@@ -89,7 +89,7 @@ Take(req) ==
         /\ finI' = (finI \ Ids(Mates(p))) \cup {p.id}
         /\ planI' = (planI \ Ids(Mates(p))) \cup {p.id}
         /\ sel' = sel \cup {<<a, p.id>>}
-        /\ pend' = pend \cup (IF p.repo = "src" THEN ReqsOf(p) ELSE {})
+        /\ pend' = pend \cup (IF p.repo # "vdb" THEN ReqsOf(p) ELSE {})
   /\ UNCHANGED <<ci, kind, status>>
 
 Stuck(req) == /\ ~SatItem(req.item, inplan)
